@@ -281,7 +281,7 @@ class _FnPass:
             t = st.target
             if isinstance(t, ast.Name):
                 for o in env.get(t.id, ()) or self.name_origins(t, env):
-                    if o.arrayish or o.kind in ("global", "default") or o.path:
+                    if o.arrayish or o.kind in ("global", "default") or o.path or (o.kind == "param" and (self._used_as_array(t.id) or self._used_as_array(o.name))):
                         self.mutate(o, st, f"in-place `{_txt(st)}`", op="aug")
                 # numeric rebinding otherwise
             else:
@@ -367,6 +367,19 @@ class _FnPass:
             for c in st.cases:
                 self.block(c.body, env)
             return
+
+    def _used_as_array(self, name):
+        """the function treats `name` as an array: it is indexed with a slice / a mask / several indices, asked for its shape, or handed to np.where & co.
+        (an augmented assignment on such a name updates the object in place; on a number it would rebind the name)"""
+        for n in ast.walk(self.fn):
+            if isinstance(n, ast.Subscript) and isinstance(n.value, ast.Name) and n.value.id == name and isinstance(n.slice, (ast.Slice, ast.Tuple, ast.Compare, ast.Name)):
+                return True
+            if isinstance(n, ast.Attribute) and isinstance(n.value, ast.Name) and n.value.id == name and n.attr in ("shape", "dtype", "ndim", "T", "size", "astype", "reshape"):
+                return True
+            if isinstance(n, ast.Call) and isinstance(n.func, ast.Attribute) and n.func.attr in ("where", "flatnonzero", "nonzero", "count_nonzero", "logical_and", "logical_or", "logical_not") \
+                    and any(isinstance(a, ast.Name) and a.id == name for a in n.args):
+                return True
+        return False
 
     # ------------------------------------------------------------------------------------------------ assignments
     def bind_target(self, t, origins, env):
@@ -663,7 +676,7 @@ class _FnPass:
                 inplace = any(k.arg == "inplace" and isinstance(k.value, ast.Constant) and k.value.value is True for k in node.keywords)
                 if a in MUT_METHODS or inplace:
                     for o in recv:
-                        if not (o.shallow and not o.path and a not in ()):
+                        if not o.shallow:  # a shallow copy (list(x), sorted(x), copy.copy(x)) is a new container whatever x was a part of; its ELEMENTS are shared (step resets the flag)
                             self.mutate(o, node, f"mutating call `.{a}({'inplace=True' if inplace else '...'})`", op="call:." + a)
                         elif o.shallow:
                             pass
@@ -953,8 +966,8 @@ def analyse(prog, entries, report_param_for=None):
                                                  "`[key] = value`: a caller-owned memo; whether its key covers everything the stored value depends on "
                                                  "cannot be decided from the source"})
                 continue
-            if ef.kind == "E-global" and not ef.origin.path and ef.op.startswith("setitem"):
-                continue  # filling a module-level table (here or in a callee): the hidden-state rule (E-state) decides whether reading it back is sound
+            if ef.kind == "E-global" and not ef.origin.path and (ef.op.startswith("setitem") or ef.op in ("call:.pop", "call:.popitem", "call:.clear", "call:.popleft", "delitem")):
+                continue  # filling / evicting from a module-level table (here or in a callee): the hidden-state rule (E-state) decides whether reading it back is sound
             rep.items.append({"kind": ef.kind, "fn": q, "root": ef.origin.root(), "src": ef.src, "op": ef.op, "node": ef.node, "module": m,
                               "message": {"E-param": f"an in-place write reaches the caller's argument `{ef.origin.name}`"
                                           + (f" (its part .{'.'.join(ef.origin.path)})" if ef.origin.path else "")
@@ -979,10 +992,17 @@ def analyse(prog, entries, report_param_for=None):
             if name in CACHE_DECOS:
                 rep.sites += 1
                 item = {"kind": "E-cache", "fn": q, "root": "decorator:" + name, "src": q, "op": "decorator", "node": fn, "module": m}
-                if _reads_files(eff, q, sc, {}):
+                pathlike = [a_.arg for a_ in fn.args.posonlyargs + fn.args.args + fn.args.kwonlyargs
+                            if any(w_ in a_.arg.lower() for w_ in ("file", "path", "name", "input", "map", "motl", "mask", "stack", "doc", "dir", "tomo", "list"))]
+                if _reads_files(eff, q, sc, {}) and pathlike:
                     item["message"] = (f"{name} on a function whose result comes from a file: the result is remembered by argument (path) only, a "
                                        "file rewritten since the first call is never read again")
                     rep.items.append(item)
+                elif _reads_files(eff, q, sc, {}):
+                    # some function reachable from the memoised one can read a file, but none of the memoised function's own parameters looks like what
+                    # is read (shape, radius, ...): whether a file enters the result at all is not decided here
+                    item["message"] = f"{name}: a file read is reachable from the memoised function; whether it depends on the arguments is not decided"
+                    rep.undecided.append(item)
                 elif prog.enclosing_class(q) is not None and fn.args.args and fn.args.args[0].arg == "self" and any(
                         isinstance(x, ast.Attribute) and isinstance(x.value, ast.Name) and x.value.id == "self" and isinstance(x.ctx, ast.Load)
                         for x in ast.walk(fn)):
@@ -1090,7 +1110,11 @@ def _pure_memo(prog, eff, q, sc, m, fn):
                 # a method that only text (or another immutable value) has, called on a value that is itself immutable here: the arguments
                 # of a memoised function are hashable, so `value.strip()` is text handling, not a table or an array
                 return immutable(e.func.value, depth + 1)
+            if isinstance(e.func, ast.Name) and fname in ("float", "int", "bool", "str", "len", "round", "hash", "frozenset", "complex", "bytes") and not e.keywords:
+                return True  # the result is an immutable scalar / text whatever the argument is
             return fname in _SCALAR_FUNCS and all(immutable(a, depth + 1) for a in e.args) and not e.keywords
+        if isinstance(e, ast.BoolOp):
+            return all(immutable(v_, depth + 1) for v_ in e.values)
         return False
 
     rets = [r.value for r in ast.walk(fn) if isinstance(r, ast.Return)]
